@@ -7,6 +7,7 @@ import (
 	"math/rand"
 	"reflect"
 	"regexp"
+	"sync"
 	"time"
 
 	"go.flow.arcalot.io/expressions"
@@ -274,7 +275,13 @@ func sliceItemType(
 
 var characters = []rune("abcdefghijklmnopqrstuvwxyz0123456789")
 var objectIDRandom = rand.New(rand.NewSource(time.Now().UnixNano())) //nolint:gosec
+
+// rand.Rand is not safe for concurrent use, and workflows may be prepared concurrently.
+var objectIDRandomLock sync.Mutex
+
 func generateRandomObjectID(purpose string) string {
+	objectIDRandomLock.Lock()
+	defer objectIDRandomLock.Unlock()
 	result := make([]rune, 32)
 	for i := range result {
 		result[i] = characters[objectIDRandom.Intn(len(characters))]
